@@ -319,6 +319,64 @@ func ruleConfigWiring(r *Report) {
 				fmt.Sprintf("argument %d of %s is %s, expected %s: a configured size/interval reaches the wrong component", w.arg, w.callee, describeValue(a), w.field))
 		}
 	}
+	// the components are wired to each other: the one freelist, the one file cache and the primary that
+	// OpenStore opened are what the other components are given (not nil, not a second instance)
+	type owire struct {
+		callee   string
+		arg      int
+		producer []string
+		what     string
+	}
+	for _, w := range []owire{
+		{"mhprimary.Open", 1, []string{"freelist.Open"}, "the freelist (the legacy upgrade applies its pending entries to the old primary before splitting it)"},
+		{"mhprimary.Open", 2, []string{"filecache.New"}, "the file cache"},
+		{"index.Open", 2, []string{"mhprimary.Open", "cidprimary.Open"}, "the primary"},
+		{"index.Open", 7, []string{"filecache.New"}, "the file cache"},
+		{"(*mhprimary.MultihashPrimary).StartGC", 0, []string{"freelist.Open"}, "the freelist"},
+	} {
+		for _, sCall := range callSites(open, w.callee) {
+			a := sCall.Common().Args
+			idx := w.arg
+			if sCall.Common().Signature().Recv() != nil && !sCall.Common().IsInvoke() {
+				idx++ // receiver is args[0] of a static method call
+			}
+			if idx >= len(a) {
+				continue
+			}
+			ok := derivesUp(a[idx], isCallTo(w.producer...), 0)
+			r.Check(ok, rule, fmt.Sprintf("OpenStore/%s/arg%d-object", w.callee, w.arg), sCall.Pos(), w.what+" opened by OpenStore is passed here",
+				fmt.Sprintf("argument %d of %s is not %s that OpenStore opened (it is %s): the component works without it or on a different instance", w.arg, w.callee, w.what, describeValue(a[idx])))
+		}
+	}
+	// the collector's index callback is always the index's Update: without it the collector neither
+	// truncates nor relocates (it cannot re-point the index), so nothing is ever reclaimed
+	for _, sCall := range callSites(open, "(*mhprimary.MultihashPrimary).StartGC") {
+		a := sCall.Common().Args
+		cb := a[len(a)-1]
+		var neverNil func(v ssa.Value, seen map[ssa.Value]bool) bool
+		neverNil = func(v ssa.Value, seen map[ssa.Value]bool) bool {
+			if seen[v] {
+				return true
+			}
+			seen[v] = true
+			switch x := v.(type) {
+			case *ssa.MakeClosure, *ssa.Function:
+				return true
+			case *ssa.ChangeType:
+				return neverNil(x.X, seen)
+			case *ssa.Phi:
+				for _, e := range x.Edges {
+					if !neverNil(e, seen) {
+						return false
+					}
+				}
+				return len(x.Edges) > 0
+			}
+			return false
+		}
+		r.Check(neverNil(cb, map[ssa.Value]bool{}), rule, "OpenStore/StartGC/index-callback-set", sCall.Pos(), "the primary collector is always given an index callback",
+			"the primary collector can be started without an index callback (nil on some path, e.g. for immutable stores): reapRecords then returns before truncating or relocating, so no primary space is ever reclaimed for such a store")
+	}
 	for field, cf := range map[string]string{"Store.syncInterval": "config.syncInterval", "Store.burstRate": "config.burstRate", "Store.syncOnFlush": "config.syncOnFlush"} {
 		ok := false
 		for _, st := range fieldStores(open, field) {
@@ -336,7 +394,7 @@ func ruleConfigWiring(r *Report) {
 		}
 	}
 	r.Check(ok, rule, "OpenStore/Store.immutable", open.Pos(), "immutable mode comes from the parameter", "Store.immutable is not the immutable parameter")
-	r.Min(rule, 20)
+	r.Min(rule, 26)
 }
 
 func describeValue(v ssa.Value) string {
@@ -479,4 +537,44 @@ func freshOrParam(v ssa.Value, f *ssa.Function, call *ssa.Call, seen map[ssa.Val
 		return freshOrParam(x.X, f, call, seen)
 	}
 	return freshSlice(v, seen)
+}
+
+// derivesUp: derives, continued through the parameters of a helper into the
+// arguments at every one of its static call sites (all of them must derive).
+func derivesUp(v ssa.Value, pred func(ssa.Value) bool, depth int) bool {
+	var params []*ssa.Parameter
+	if derives(v, flowOpts{}, func(x ssa.Value) bool {
+		if p, ok := x.(*ssa.Parameter); ok {
+			params = append(params, p)
+		}
+		return pred(x)
+	}) {
+		return true
+	}
+	if depth > 3 {
+		return false
+	}
+	for _, p := range params {
+		f := p.Parent()
+		idx := -1
+		for i, q := range f.Params {
+			if q == p {
+				idx = i
+			}
+		}
+		callers := staticCallers[f]
+		if idx < 0 || len(callers) == 0 || usedAsValue[f] {
+			continue
+		}
+		all := true
+		for _, c := range callers {
+			if idx >= len(c.Call.Args) || !derivesUp(c.Call.Args[idx], pred, depth+1) {
+				all = false
+			}
+		}
+		if all {
+			return true
+		}
+	}
+	return false
 }
